@@ -348,6 +348,13 @@ def check_flip(repo, rep):
                 rep.violation(rid, "flip|new-trade-entry",
                               f"after a flip the new (short) trade records entry quantity {tq!r} instead of the flipped remainder 'big': "
                               f"the whole flipping order is booked into the old trade")
+            # the flipping order is the entry order of the new trade (and the exit order of the old one)
+            ords = cur.attrs.get("orders") or []
+            names = [getattr(o, "name", None) for o in ords]
+            if "F1" not in names:
+                rep.violation(rid, "flip|new-trade-order-list",
+                              f"after a flip the order list of the new trade is {names}: the flipping order, which is its entry, is missing "
+                              f"(the exports built from the order list show a trade without an entry order)")
         rep.instance(rid, "flip", {"reported": reported})
     rep.floor(rid, 1)
 
